@@ -73,6 +73,9 @@ def oracle(pred, ref, M, out):
     return bad
 
 
+INTERLEAVED = set()
+
+
 def gen(ctx):
     rng = ctx.rng
     cases = []
@@ -147,6 +150,28 @@ def gen(ctx):
                 if lay == "bothF":
                     r = np.asfortranarray(r)
         cases.append((p, r))
+    # several references, each with a main prediction and smaller fragments whose scores interleave with the other references'
+    # candidates (best-first order: main of A, main of B, fragment of A, fragment of B, ...): a many-to-one / merge matcher inserts the
+    # predictions of one reference NON-consecutively into its label map
+    for _ in range(ctx.scale(40, 400)):
+        k = rng.randint(2, 3)
+        w = 14
+        dt = rng.choice(["uint8", "uint16", "uint32"])
+        ref = np.zeros((rng.choice([1, 2]), k * w), dt); pred = np.zeros_like(ref)
+        rl = rng.sample(range(1, 9), k)
+        pl = rng.sample(range(1, 30), 3 * k)
+        for i in range(k):
+            o = i * w
+            n = rng.randint(9, 12)
+            ref[:, o:o + n] = rl[i]
+            main = n - rng.randint(3, 5) - i                      # different main scores per reference
+            pred[:, o:o + main] = pl[3 * i]
+            f1 = rng.randint(1, 2)
+            pred[:, o + main:o + main + f1] = pl[3 * i + 1]
+            if rng.random() < 0.5 and main + f1 < n:
+                pred[:, o + main + f1:o + n] = pl[3 * i + 2]
+        cases.append((pred, ref))
+        INTERLEAVED.add(id(pred))
     # volumes of several million voxels with a handful of instances, one of them entirely in the LAST rows in memory order (whatever
     # is collected block-wise or in passes must see every voxel): an unmatched prediction carrying a reference's label lies there
     for _ in range(ctx.scale(2, 8)):
@@ -205,6 +230,8 @@ def run(ctx):
         kind = rng.choice(["naive", "m2o", "merge"])
         mname = rng.choice(["IOU", "DSC"])
         thr = rng.choice([0.0, 0.3, 0.5, 0.9])
+        if id(pred) in INTERLEAVED:
+            kind, thr = rng.choice(["m2o", "merge", "m2o", "naive"]), rng.choice([0.0, 0.05, 0.1])
         case = {"pred": pred, "ref": ref, "matcher": kind, "metric": mname, "threshold": thr}
         if id(pred) in BIG:
             case = {"large": BIG[id(pred)], "matcher": kind, "metric": mname, "threshold": thr}
